@@ -25,6 +25,7 @@ class UuidClock:
     def __init__(self, seed: int, regime: str = "counter"):
         self.rng = random.Random(seed ^ 0x5EED)
         self.issued: set[int] = set()
+        self.issued_hashes: set[int] = set()
         self.n = 0
         self.calls = 0
         self.segment = 1 << 20
@@ -62,9 +63,13 @@ class UuidClock:
     def __call__(self, node=None, clock_seq=None):
         self.calls += 1
         v = self._candidate() & ((1 << 128) - 1)
-        while v in self.issued or v == 0:
+        # unique values AND unique 64-bit hashes: the library keys dicts by Col (hash = hash of the
+        # UUID, == overloaded to build an expression), so a full-hash collision of two distinct
+        # UUIDs - probability 2**-61 with real uuid1 values - would be an artefact of this clock
+        while v in self.issued or v == 0 or hash(v) in self.issued_hashes:
             v = (v + 1) & ((1 << 128) - 1)
         self.issued.add(v)
+        self.issued_hashes.add(hash(v))
         self.min_int = v if self.min_int is None else min(self.min_int, v)
         self.max_int = v if self.max_int is None else max(self.max_int, v)
         return _uuid_mod.UUID(int=v)
